@@ -17,7 +17,7 @@ import (
 	"github.com/formancehq/ledger/verifharness/stats"
 )
 
-const ruleC25HTTP = "HTTP leg: on a ledger with small generated balances, 3-6 postings requests (1-8 postings, repeated accounts, source == destination, world on either side, zero and edge amounts, optional timestamp / reference / metadata / force) are sent as JSON through the real router over the real storage code - POST /v2/{ledger}/transactions, POST /{ledger}/transactions (v1), a one-element POST /v2/{ledger}/_bulk as application/json and as a JSON stream; the answer must be INSUFFICIENT_FUND exactly when the reference fold says some non-world source would go below zero (never with force), otherwise the transaction returned, and the one read back with GET, must carry exactly the submitted postings in order, the submitted metadata, reference and timestamp; balances read back through GET accounts must follow; non-trivial = request with >= 2 postings on one account sent through v1 or a bulk; distinct = by requests + routes"
+const ruleC25HTTP = "HTTP leg: on a ledger with small generated balances, 3-6 postings requests (1-8 postings, repeated accounts, source == destination, world on either side, zero and edge amounts, optional timestamp / reference / metadata / force, on the default, the machine or the interpreter runtime) are sent as JSON through the real router over the real storage code - POST /v2/{ledger}/transactions, POST /{ledger}/transactions (v1), a one-element POST /v2/{ledger}/_bulk as application/json and as a JSON stream; the answer must be INSUFFICIENT_FUND exactly when the reference fold says some non-world source would go below zero (never with force), otherwise the transaction returned, and the one read back with GET, must carry exactly the submitted postings in order, the submitted metadata, reference and timestamp; balances read back through GET accounts must follow; non-trivial = request with >= 2 postings on one account sent through v1 or a bulk; distinct = by requests + routes"
 
 func TestC25HTTP(t *testing.T) {
 	st := stats.New("C25", "exploration", ruleC25HTTP, assumePgsim)
@@ -56,6 +56,19 @@ func TestC25HTTP(t *testing.T) {
 			if route == "v1" {
 				r.Force = false // the v1 route has no force option
 			}
+			runtime := ""
+			if route != "v1" {
+				runtime = rapid.SampledFrom([]string{"", "", "machine", "experimental-interpreter"}).Draw(rt, "runtime")
+			}
+			if runtime == "experimental-interpreter" {
+				// the interpreter leaves zero-amount postings out (a difference between the runtimes recorded under C26):
+				// requests sent to it carry none
+				for i := range r.Postings {
+					if r.Postings[i].Amount.Sign() == 0 {
+						r.Postings[i].Amount = big.NewInt(1)
+					}
+				}
+			}
 			want := l.expectPostings(r)
 			body := map[string]any{}
 			var ps []map[string]any
@@ -75,6 +88,9 @@ func TestC25HTTP(t *testing.T) {
 			if r.Force {
 				body["force"] = true
 			}
+			if runtime != "" {
+				body["runtime"] = runtime
+			}
 			var req httpReq
 			switch route {
 			case "v2":
@@ -88,7 +104,7 @@ func TestC25HTTP(t *testing.T) {
 					Body: append(mustJSON(map[string]any{"action": "CREATE_TRANSACTION", "data": body}), '\n')}
 			}
 			code, doc, raw := do(req)
-			desc := fmt.Sprintf("%s %s", route, r.describe())
+			desc := fmt.Sprintf("%s runtime=%q %s", route, runtime, r.describe())
 			// ---- outcome
 			var txDoc map[string]any
 			errorCode := fmt.Sprint(doc["errorCode"])
